@@ -1002,7 +1002,10 @@ func main() {
 		r.Part("E3-unbounded-state-pruned", func(t *explore.T) {
 			ms := [][]string{{"S2s", "S2t"}}
 			if t.Thorough() {
-				ms = append(append([][]string{}, mixes2...), mixes3...)
+				// the unbounded search is run on the twelve basic two-session mixes and the three-session
+				// ones; the mixes added later (own helpers, text reads, cancelled dials, custom callbacks,
+				// borrowed writers) are covered by the preemption-bounded parts, with bound 3 in this tier
+				ms = append(append([][]string{}, mixes2[:12]...), mixes3...)
 			}
 			for _, m := range ms {
 				runMix(t, m, all, ref, explore.ExploreOpts{Bound: -1, UseKeys: true, MaxExec: int64(t.Pick(150000, 3000000))}, true)
